@@ -84,7 +84,7 @@ SHIPPED_SMALL = [
 ]
 
 
-def problem_descs(allow_tabular=True, allow_shipped=True):
+def problem_descs(allow_tabular=True, allow_shipped=True, rot=0):
     from hypothesis import strategies as st
 
     from vf.gen_mdp import mdp_specs
@@ -94,19 +94,24 @@ def problem_descs(allow_tabular=True, allow_shipped=True):
         opts.append(mdp_specs(max_states=6, min_states=2, max_actions=3, max_events=3, allow_pol0=False, chain="hub",
                               reward_scales=(0, 0)).map(lambda s: dict(kind="tabular", spec=s)))
     if allow_shipped:
-        opts.append(st.sampled_from(SHIPPED_SMALL).map(lambda kp: dict(kind=kp[0], params=dict(kp[1]))))
+        sh = SHIPPED_SMALL[rot % len(SHIPPED_SMALL):] + SHIPPED_SMALL[: rot % len(SHIPPED_SMALL)]
+        opts.append(st.sampled_from(sh).map(lambda kp: dict(kind=kp[0], params=dict(kp[1]))))
+    if rot % 2 == 1:
+        opts = opts[::-1]  # Hypothesis tries the simplest example first: rotate what 'simplest' means per shard
     return st.one_of(*opts)
 
 
-def solver_descs(kinds=("vi", "pi", "rvi", "pvi", "sa"), allow_shuffle=False):
+def solver_descs(kinds=("vi", "pi", "rvi", "pvi", "sa"), allow_shuffle=False, rot=0):
     from hypothesis import strategies as st
 
     @st.composite
     def descs(draw):
-        kind = draw(st.sampled_from(list(kinds)))
-        p = dict(epsilon=draw(st.sampled_from([1e-2, 1e-3, 1e-4])), max_batch_size=draw(st.sampled_from([2, 3, 64])))
+        ks = list(kinds)
+        ks = ks[rot % len(ks):] + ks[: rot % len(ks)]
+        kind = draw(st.sampled_from(ks))
+        p = dict(epsilon=draw(st.sampled_from([1e-4, 1e-3, 1e-2])), max_batch_size=draw(st.sampled_from([2, 3, 64])))
         if kind != "rvi":
-            p["gamma"] = draw(st.sampled_from([0.8, 0.9, 0.95]))
+            p["gamma"] = draw(st.sampled_from([0.9, 0.8, 0.95]))
         if kind in ("vi", "pi", "sa"):
             p["convergence_test"] = draw(st.sampled_from(["span", "max_diff"]))
         if kind == "pvi":
